@@ -52,6 +52,15 @@ class _Env:
 
   def __init__(self):
     self.jax = common.setup_jax()
+    import os
+    try:   # eager execution compiles one small kernel per primitive and shape; keep them across runs
+      cdir = os.path.join(common.WORK, 'jaxcache_C10')
+      os.makedirs(cdir, exist_ok=True)
+      self.jax.config.update('jax_compilation_cache_dir', cdir)
+      self.jax.config.update('jax_persistent_cache_min_entry_size_bytes', -1)
+      self.jax.config.update('jax_persistent_cache_min_compile_time_secs', 0.0)
+    except Exception:  # pylint: disable=broad-except
+      pass
     import jax.numpy as jnp
     from dinosaur import (associated_legendre, coordinate_systems, fourier, primitive_equations, scales,
                           shallow_water, sigma_coordinates, spherical_harmonic, time_integration)
@@ -350,9 +359,11 @@ def _hypotheses(ctx, E):
         if fast:
           rec('basis.f=zero-imag', float(np.abs(f[:N, 1]).max()), {}, 0.0)
         a, b = (np.asarray(v, dtype=float) for v in g._derivative_recurrence_weights)
-        r0 = 0 if fast else 1
-        pair = max((float(np.abs(v[r0::2][: (M - r0 if fast else M - 1)] - v[r0 + 1::2][: (M - r0 if fast else M - 1)]).max())
-                    if M > 1 or fast else 0.0) for v in (a, b))
+        # both rows of every (cos, sin) pair m >= 1 carry the same recurrence weights
+        pair = 0.0
+        for m in range(1, M):
+          c0 = (2 * m) if fast else (2 * m - 1)
+          pair = max(pair, float(np.abs(a[c0] - a[c0 + 1]).max()), float(np.abs(b[c0] - b[c0 + 1]).max()))
         rec('weights-equal-on-pairs', pair, {}, 0.0)
         syms = [Sym(g, k) for k in _ks(rng, N)] + [Sym(g, None)]
         x = rng.standard_normal(ms)
@@ -575,7 +586,7 @@ def _probes(ctx, E, worst):
       return res
 
     ks = _ks(rng, N)
-    sel = [ks[(ci + ctx.seed) % len(ks)], ks[(ci + ctx.seed + 2) % len(ks)]] if ctx.quick else ks
+    sel = [ks[(ci + ctx.seed) % len(ks)]] if ctx.quick else ks
     syms = [Sym(grid, k) for k in dict.fromkeys(sel)] + [Sym(grid, None)]
     key0 = f'probe:{cls}'
     ref = None
@@ -686,7 +697,7 @@ def _probes_sw(ctx, E, worst):
       return res
 
     ks = _ks(rng, N)
-    sel = [ks[(ci + ctx.seed + 1) % len(ks)], ks[(ci + ctx.seed + 3) % len(ks)]] if ctx.quick else ks
+    sel = [ks[(ci + ctx.seed + 1) % len(ks)]] if ctx.quick else ks
     syms = [Sym(grid, k) for k in dict.fromkeys(sel)] + [Sym(grid, None)]
     ref = None
     with ctx.impl('probe:sw:raises', inp0):
